@@ -7,9 +7,9 @@ fuzz_target("fz_c08_table", ["fuzz/fz_c08_table.cc", f"{REPO}/tools/src/libtools
 
 PROPS["C08"] = dict(
     parts=[rc("h_c08", quick=dict(cases=8000, procs=8, budget_s=600),
-              thorough=dict(cases=400000, procs=16, budget_s=1500)),
-           fz("fz_c08_table", quick=dict(runs=200000, procs=2, max_len=160, budget_s=300),
-              thorough=dict(runs=8000000, procs=8, max_len=256, budget_s=1200))],
+              thorough=dict(cases=160000, procs=16, budget_s=1800)),
+           fz("fz_c08_table", quick=dict(runs=60000, procs=2, max_len=160, budget_s=300),
+              thorough=dict(runs=2000000, procs=8, max_len=256, budget_s=1200))],
     rule=("gro|pdb|xyz|dump|dlph|dlpc: generated topology (1..200 spherical beads, 1..6 residues, 1..4 types, names of 1..5 printable "
           "characters) and 1..5 frames (dlpc: 1) with step>=1, time=step*dt, positions/velocities/forces on a decimal lattice two digits finer "
           "than the format prints (or full double precision for the general-notation formats), magnitudes inside the format's field width "
